@@ -228,6 +228,13 @@ def gen_defn(rng):
         meas = rng.choice(KEYWORDS)
     elif r < 0.2:
         meas = rng.choice(COLS)
+    r = rng.random()
+    if r < 0.12:
+        cnt = meas + "_raw"            # a second MEASURE named like the first one's internal column: the ratio and the derived metric refer to both
+    elif r < 0.2:
+        cnt = meas + "_total"          # ... or simply a longer name with the first as a prefix
+    elif r < 0.26:
+        cnt = "n_" + meas
     return dict(model=model, dim=dim, meas=meas, cnt=cnt, rat=rat, der=der, seg=seg, sql_backed=rng.random() < 0.25, composite=rng.random() < 0.25,
                 inline=rng.random() < 0.5, meas_col=rng.choice(["c0", "c1", "c0 + c1"]),
                 sg_cat=rng.choice([None, None, ["day", "month"], ["year"], ["day", "week", "month", "quarter", "year"]]),
